@@ -150,10 +150,12 @@ protected:
                     const unsigned char* ptr_groupTargetGetLocalPtr = reinterpret_cast<const unsigned char*>(&groupTargetGetLocalPtr[0]);
 
                     auto* kernelsPtr = kernels.data();
+                    // The task may start after this lambda has returned: it must not reach the members through the closure
+                    const auto* kernelWrapperPtr = &kernelWrapper;
 
-#pragma omp task depend(in:ptr_groupSrcGetMultipolePtr[0]) depend(commute:ptr_groupTargetGetLocalPtr[0]) default(shared) firstprivate(idxLevel, indexesVec, groupSrcPtr, groupTargetPtr, kernelsPtr)  priority(priorities.getM2LPriority(idxLevel))
+#pragma omp task depend(in:ptr_groupSrcGetMultipolePtr[0]) depend(commute:ptr_groupTargetGetLocalPtr[0]) default(shared) firstprivate(idxLevel, indexesVec, groupSrcPtr, groupTargetPtr, kernelsPtr, kernelWrapperPtr)  priority(priorities.getM2LPriority(idxLevel))
                     {
-                        kernelWrapper.M2LBetweenGroups(idxLevel, kernelsPtr[omp_get_thread_num()], *groupTargetPtr, *groupSrcPtr, std::move(*indexesVec));
+                        kernelWrapperPtr->M2LBetweenGroups(idxLevel, kernelsPtr[omp_get_thread_num()], *groupTargetPtr, *groupSrcPtr, std::move(*indexesVec));
                         delete indexesVec;
                     }
                 });
@@ -300,10 +302,12 @@ protected:
                 const unsigned char* ptr_groupTargetGetRhsPtr = reinterpret_cast<const unsigned char*>(&groupTargetGetRhsPtr[0]);
 
                 auto* kernelsPtr = kernels.data();
+                // The task may start after this lambda has returned: it must not reach the members through the closure
+                const auto* kernelWrapperPtr = &kernelWrapper;
 
-#pragma omp task depend(in:ptr_groupSrcGetDataPtr[0],ptr_groupTargetGetDataPtr[0]) depend(commute:ptr_groupSrcGetRhsPtr[0],ptr_groupTargetGetRhsPtr[0]) default(shared) firstprivate(indexesVec, groupSrcPtr, groupTargetPtr, kernelsPtr) priority(priorities.getP2PPriority())
+#pragma omp task depend(in:ptr_groupSrcGetDataPtr[0],ptr_groupTargetGetDataPtr[0]) depend(commute:ptr_groupSrcGetRhsPtr[0],ptr_groupTargetGetRhsPtr[0]) default(shared) firstprivate(indexesVec, groupSrcPtr, groupTargetPtr, kernelsPtr, kernelWrapperPtr) priority(priorities.getP2PPriority())
                 {
-                    kernelWrapper.P2PBetweenGroups(kernelsPtr[omp_get_thread_num()], *groupSrcPtr, *groupTargetPtr, std::move(*indexesVec));
+                    kernelWrapperPtr->P2PBetweenGroups(kernelsPtr[omp_get_thread_num()], *groupSrcPtr, *groupTargetPtr, std::move(*indexesVec));
                     delete indexesVec;
                 }
             });
